@@ -382,7 +382,9 @@ def apply_op(obj, op, env):
             raise Reject("object-dtype filter predicate")
         return obj[pred]
     if k == "assign":
-        return obj.assign(**{op["name"]: ev(obj, op["value"], env)})
+        # "more": further keyword arguments of the SAME assign call (pandas keeps keyword order)
+        items = [(op["name"], op["value"])] + [tuple(x) for x in op.get("more", [])]
+        return obj.assign(**{n: ev(obj, v, env) for n, v in items})
     if k == "expr":
         return ev(obj, op["value"], env)
     if k == "frame_bin":
@@ -808,7 +810,30 @@ def gen_frame_op(draw, schema, ctx, last):
             new = [[n, (cls if n == name else c)] for n, c in schema]
         else:
             new.append([name, cls])
-        return {"op": "assign", "name": name, "value": val}, new, False
+        op = {"op": "assign", "name": name, "value": val}
+        if draw(st.integers(0, 2)) == 0:
+            # several keyword arguments in one call, mixing literals, expressions of this frame and of other collections
+            more, used = [], {name}
+            for _ in range(draw(st.integers(1, 2))):
+                n2 = _sample(draw, [x for x in names + ["z", "y", "w"] if x not in used])
+                used.add(n2)
+                how = draw(st.integers(0, 3))
+                oth = gen_other(draw, ctx["schema0"]) if how == 1 and ctx.get("allow_other") else None
+                if how == 0:
+                    v = _sample(draw, [1, 2.5, "k"])
+                    v2, c2 = _lit(v), ("int" if isinstance(v, int) else "float" if isinstance(v, float) else "str")
+                elif oth is not None:
+                    # a series of another partitioning after (or before) plain values in the same call
+                    v2, c2 = oth, "float"
+                else:
+                    v2, c2 = gen_any(draw, schema, ctx)
+                more.append([n2, v2])
+                if n2 in dict(new):
+                    new = [[n, (c2 if n == n2 else c)] for n, c in new]
+                else:
+                    new.append([n2, c2])
+            op["more"] = more
+        return op, new, False
     if k == "expr":
         val, cls = gen_any(draw, schema, ctx)
         return {"op": "expr", "value": val}, schema, True
